@@ -338,6 +338,8 @@ func runC02(c *Check) {
 	c.MinInstances("C02-R6", 3)
 	c.Doc("C02-R8", "VP: the cursor of the P2P store polling loops is unchanged on the error path of the range read.")
 	ruleP2PCursor(c, p)
+	c.Doc("C02-R9", "EO: in the sync loop an event's hash is marked seen only after the sync attempt of the same iteration returned without error (a seen mark is persisted with the cache and makes every re-delivery a duplicate: set before a failed attempt it leaves the block unapplied for good).")
+	ruleSeenOnlyAfterSyncAttempt(c, p, steps)
 }
 
 // ruleP2PCursor (C02-R8): the polling loops over the P2P header/data stores keep a cursor (the
@@ -435,4 +437,49 @@ func ruleP2PCursor(c *Check, p *Prog) {
 	if n < 2 {
 		c.Unk(rule, "p2p-store-loops", "", "", fmt.Sprintf("anchor lost: %d polling loops with a store-height cursor (2 confirmed by hand)", n))
 	}
+}
+
+// ruleSeenOnlyAfterSyncAttempt (C02-R9).
+func ruleSeenOnlyAfterSyncAttempt(c *Check, p *Prog, steps []*ssa.Function) {
+	rule := "C02-R9"
+	loop := p.MustFunc(loopSync)
+	g := BuildECFG(p, loop, ExpandOpts{MaxDepth: 1, Stop: func(fn *ssa.Function) bool {
+		for _, s := range steps {
+			if s == fn {
+				return true
+			}
+		}
+		return false
+	}})
+	c.NoteGraph(g)
+	isStepCall := func(t *Term) bool {
+		cv, ok := t.V.(*ssa.Call)
+		if !ok || t.Op != "call" {
+			return false
+		}
+		for _, s := range steps {
+			if cv.Common().StaticCallee() == s {
+				return true
+			}
+		}
+		return false
+	}
+	syncOK := g.Select(ErrNilEdge(isStepCall))
+	sel := g.Select(func(n *Node) bool { s, ok := n.In.(*ssa.Select); return ok && s.Blocking })
+	marks := g.Select(func(n *Node) bool { return strings.HasSuffix(CallName(n), "Cache[_]).SetSeen") })
+	if len(syncOK) == 0 || len(sel) == 0 || len(marks) == 0 {
+		c.Unk(rule, "SyncLoop ⟂ anchors", fnName(loop), "", fmt.Sprintf("anchor lost: %d sync-attempt success edges, %d selects, %d seen marks in the sync loop", len(syncOK), len(sel), len(marks)))
+		return
+	}
+	for _, mk := range marks {
+		mk := mk
+		kind := "header"
+		if r := RecvTerm(mk); r != nil && r.Name == "dataCache" {
+			kind = "data"
+		}
+		c.Decide(rule, "SyncLoop ⟂ "+kind+"-seen-only-after-sync-attempt", fnName(loop), p.InstrPos(mk.In), "the "+kind+" hash is marked seen only after the sync attempt of the iteration succeeded",
+			"the "+kind+" hash can be marked seen before (or without) a successful sync attempt in the same iteration: if the attempt then fails and the node stops, the restored cache holds the item as seen, every re-delivery is dropped as a duplicate and nothing triggers the apply again", g,
+			g.PrecedeSince(nodeSet(sel), nodeSet(syncOK), func(n *Node) bool { return n == mk }))
+	}
+	c.MinInstances(rule, 2)
 }
